@@ -875,7 +875,8 @@ def judge_trace(ctx, case, obs, wf):
 def judge_tree(ctx, case, obs, wf):
     mism = []
     why = sorted(case["why"])
-    small = {"kind": "tree", "hist": case["hist"], "pol": case["pol"], "rootkind": case["rootkind"], "rootname": case["rootname"]}
+    small = {"kind": "tree", "hist": case["hist"], "pol": case["pol"], "rootkind": case["rootkind"], "rootname": case["rootname"],
+             "own_tensor_value": case["dvalue"]}
     if obs.get("err"):
         _report(ctx, dict(small, observed=obs["err"]), f"building/tracing the module tree raised: {obs['err']}")
         return mism
@@ -1060,6 +1061,7 @@ def run(ctx: core.Ctx):
         if isinstance(o, core.MachineryErrorResult):
             raise core.MachineryError(f"trace replay failed: {o.msg}\n{json.dumps(c['prog'])[:600]}")
         ctx.add("traces_validated_against_impl")
+        ctx.add("graph_outputs_typed_by_harness", o.get("patched_outputs", 0))
         f = prog_features(c["prog"])
         if f & {"if", "loop", "scan", "call", "inline", "literal", "explicit_outputs", "push"}:
             nontriv.add(json.dumps(c["prog"], sort_keys=True))
@@ -1115,9 +1117,17 @@ def replay(ctx, path):
         o = replay_tree({"hist": case["hist"], "pol": case["pol"], "rootkind": case["rootkind"], "rootname": case["rootname"]})
         print(json.dumps({k: v for k, v in o.items() if k not in ("abstract", "nodes")}, indent=1))
         pre = "" if case["rootname"] == "<none>" else case["rootname"] + "."
-        bad = o.get("err") or "run_err" in o or sorted(k for k, _ in o.get("inits", [])) != sorted(pre + k for k in o.get("state_dict", []))
+        expected = [pre + k for k in o.get("state_dict", [])]
+        bad = (o.get("err") or "run_err" in o or sorted(k for k, _ in o.get("inits", [])) != sorted(expected)
+               or (expected and o.get("second") != expected)
+               or ("own_tensor_value" in case and o.get("value") != [case["own_tensor_value"]] * 2))
+        print("property holds now" if not bad else "property still violated")
         return 1 if bad else 0
     o = _trace_worker({"prog": case["prog"], "outs": case["outs"], "names": case["names"]})
     print(json.dumps({k: v for k, v in o.items() if k not in ("abstract", "nodes")}, indent=1))
-    bad = o["outcome"] != "ok" or o["checker"] != "ok" or o["ort"] != o["np"]
+    bad = o["outcome"] != "ok" or o["checker"] != "ok" or o["ort"] != o["np"] or bool(o.get("wiring"))
+    if not bad:
+        dv, dn = _dups(o["nodes"], INPUT_NAMES + [i["nm"] for i in o["inits"]])
+        bad = bool(dv or dn)
+    print("property holds now" if not bad else "property still violated")
     return 1 if bad else 0
